@@ -207,14 +207,18 @@ func (cs *compSess) wire() []string {
 	defer b.mu.Unlock()
 	var out []string
 	pre := b.gameStr + " "
+	opp := "Opp"
+	if b.colour == "o" {
+		opp = "" // an observer has no opponent: `Tell  <text>`
+	}
 	for _, x := range b.sent {
 		switch {
 		case x == pre+"Resign":
 			out = append(out, "R")
 		case strings.HasPrefix(x, pre):
 			out = append(out, b.sentStr(x))
-		case strings.HasPrefix(x, "Tell Opp "):
-			if cl := fpa.VerifResignText(x[len("Tell Opp "):]); !strings.HasPrefix(cl, "other<") {
+		case strings.HasPrefix(x, "Tell "+opp+" "):
+			if cl := fpa.VerifResignText(x[len("Tell "+opp+" "):]); !strings.HasPrefix(cl, "other<") {
 				out = append(out, "T:"+cl)
 			}
 		}
@@ -282,8 +286,12 @@ func (cs *compSess) full() string {
 	cs.b.mu.Lock()
 	calls := cs.calls
 	cs.b.mu.Unlock()
+	notes := cs.c.VerifRuleNotes()
+	if strings.HasSuffix(cs.status(), "tpanic") {
+		notes = "-" // the rule may have panicked half way through an update; the process is gone anyway
+	}
 	return fmt.Sprintf("%s result=%s pos=%s moves=%s p=%d times=%s,%s wire=%s in=%s c=%d notes=%s",
-		cs.status(), res, j(ps), j(ms), g.VerifP().Hash(), durStr(mine), durStr(theirs), j(cs.wire()), cs.inStr(), calls, cs.c.VerifRuleNotes())
+		cs.status(), res, j(ps), j(ms), g.VerifP().Hash(), durStr(mine), durStr(theirs), j(cs.wire()), cs.inStr(), calls, notes)
 }
 
 func init() {
